@@ -11,7 +11,7 @@ from .. import sandbox  # noqa
 LEVEL = 'exploration'
 RULE = (
     'complete grid: lengths 0..64 and {100,1000,100000} x 4 (initial,final) pairs x offsets {0,5,2^40,2^53+1,2^62+3 where representable (64-bit totals must come back exactly); 0.5 and -1.25 for float outputs} '
-    'x dtype pairs (i4->i4,u4->u8,i8->i8,f4->f8,f8->f8,list->i8,list->u8) x out length N_out, N_out-1, N_out+1; '
+    'x dtype pairs (i4->i4,u4->u8,i8->i8,i8->u8,f4->f8,f8->f8,list->i8,list->u8; signed elements into unsigned outputs include negatives when the offset keeps every partial sum positive) x out length N_out, N_out-1, N_out+1; '
     'a case is (dtype pair, N, flags, offset, outlen delta); non-trivial = distinct (dtype pair, N, flags) with N_out>=0; '
     'each case run in the production build with canaries and in the bounds-sanitized build'
 )
@@ -20,7 +20,7 @@ ASSUMPTIONS = [
     'an empty Python list cannot be typed by numba and is outside the domain',
 ]
 
-DTYPES = [('i4', 'i4'), ('u4', 'u8'), ('i8', 'i8'), ('f4', 'f8'), ('f8', 'f8'), ('list', 'i8'), ('list', 'u8')]
+DTYPES = [('i4', 'i4'), ('u4', 'u8'), ('i8', 'i8'), ('f4', 'f8'), ('f8', 'f8'), ('list', 'i8'), ('list', 'u8'), ('i8', 'u8')]
 GUARD = 16
 CANARY = 77
 
@@ -59,7 +59,7 @@ def group_case(case):
     nrej = 0
     for rep in range(case.get('reps', 1)):
         if din == 'list':
-            vals = [int(v) for v in rng.integers(0, 1000, N)]
+            vals = [int(v) for v in rng.integers(-1000, 1000, N)]
             if N == 0:
                 continue  # untypable
         elif din[0] == 'f':
@@ -77,9 +77,11 @@ def group_case(case):
                         continue  # not representable in the output type: nothing exact to expect
                     if isinstance(offset, float) and dout[0] != 'f':
                         continue  # a fractional start is only meaningful for a floating-point output
-                    if dout[0] == 'u':
+                    if dout[0] == 'u' and not (din in ('list', 'i8') and not isinstance(offset, float) and offset >= 2**40):
                         vv = [abs(int(v)) for v in vals]
                     else:
+                        # (also: signed input with negative elements into an unsigned output whose partial sums all stay positive
+                        # thanks to the offset -- numpy.cumsum(a, dtype=uint64) wraps each addend and gets the same sums)
                         vv = [int(v) for v in vals]
                     sel, total = ref_selected(vv, offset, initial, final)
                     N_out = N - 1 + int(initial) + int(final)
@@ -110,7 +112,9 @@ def group_case(case):
                             if sandbox.is_index_error(e):
                                 problems.append(dict(kind='index_error', msg=str(e)[:200], **desc))
                                 continue
-                            raise
+                            # every case of the grid is a valid call (or a wrong-length one, rejected with ValueError): anything else raised is a failure of the helper
+                            problems.append(dict(kind='raises_' + type(e).__name__, msg=str(e)[:200], **desc))
+                            continue
                         guards_ok = bool((obuf[:GUARD] == CANARY).all() and (obuf[GUARD + L :] == CANARY).all())
                         if abuf is not None:
                             guards_ok &= bool((abuf == acopy).all())
